@@ -117,4 +117,32 @@ Section Value.
     | a :: r1, b :: r2 => ((one - l) * a + l * b) :: vec_interp r1 r2 l
     | _, _ => []
     end.
+
+  (* ---- a periodic variable as an object with run-time history: the component's period and wrapping
+     centre can be changed after initialisation (colvar::update_cvc_config <- `cv colvar X modifycvcs`,
+     cvc::set_param); colvar::wrap and colvar::dist2/dist2_lgrad of a periodic (non-scripted) variable
+     delegate to cvcs[0], i.e. they use the parameters in force at the time of the call. ---- *)
+  Record pvar := { pv_P : T; pv_c : T }.
+  Inductive pv_op :=
+  | PvModify (P c : T)        (* modifycvcs "period P wrapAround c" *)
+  | PvWrap (x : T)            (* colvar::wrap *)
+  | PvDist2 (x1 x2 : T).      (* colvar::dist2 and colvar::dist2_lgrad *)
+  Definition pv_step (s : pvar) (o : pv_op) : pvar * list T :=
+    match o with
+    | PvModify P c => ({| pv_P := P; pv_c := c |}, [])
+    | PvWrap x => (s, [cvc_wrap (pv_c s) (pv_P s) x])
+    | PvDist2 x1 x2 => (s, [per_dist2 (pv_P s) x1 x2; per_grad (pv_P s) x1 x2])
+    end.
+  Fixpoint pv_run (s : pvar) (ops : list pv_op) : pvar * list (list T) :=
+    match ops with
+    | [] => (s, [])
+    | o :: r => let '(s1, out) := pv_step s o in let '(s2, outs) := pv_run s1 r in (s2, out :: outs)
+    end.
+  (* specification: the parameters in force after a history are those of its last modification *)
+  Fixpoint pv_in_force (s : pvar) (ops : list pv_op) : pvar :=
+    match ops with
+    | [] => s
+    | PvModify P c :: r => pv_in_force {| pv_P := P; pv_c := c |} r
+    | _ :: r => pv_in_force s r
+    end.
 End Value.
